@@ -333,7 +333,13 @@ def whole_book(ctx, bi):
         return
     cls = ld.value
     # file: bytes = text; loading through the Executor
-    fpath = os.path.join(ctx.workdir, name + '_gen.py')
+    # every book writes a file of the SAME name into a directory of its own, every second one through a path relative to the current
+    # directory: a loader that remembers modules by file name, or a writer that resolves the path differently, mixes the books up
+    os.makedirs(os.path.join(ctx.workdir, name + '_d'), exist_ok=True)
+    fpath = os.path.join(ctx.workdir, name + '_d', 'excel_in_python.py')
+    if bi % 2:
+        fpath = os.path.relpath(fpath)
+        r.count('class_files_by_relative_path')
     w = pipeline.guarded(lambda: p.write_translation(fpath), 'translate')
     if not w.ok:
         report(r, ID, None, case, w.brief(), 'write_translation succeeds after get_translation did', monitor='write')
